@@ -9,11 +9,11 @@ CONSTANTS
   GATEWAY = "gw"
   DEVS = {}
   SENDERS = {"a1", "a2"}
-  TARGETS = {"a2", "c", "pre", "w", "new"}
+  TARGETS = {"a2", "c", "pre", "w", "new", "newp"}
   TYPES = {"leg", "dyn"}
   PCS_N = {"at", "above"}
   PCS_X = {"below"}
-  TIPS_N = {"zero", "one"}
+  TIPS_N = {"one"}
   TIPS_X = {}
   GLS_N = {"intr", "big"}
   GLS_X = {}
